@@ -59,6 +59,16 @@ def _mentions(t, accvals, depth=0):
     return False
 
 
+def _mentions_local(x, l):
+    if isinstance(x, dict):
+        if x.get("l") == l and ("p" in x or "ty" in x):
+            return True
+        return any(_mentions_local(v, l) for v in x.values())
+    if isinstance(x, list):
+        return any(_mentions_local(v, l) for v in x)
+    return False
+
+
 def _use_set(prog, rep):
     n = 0
     for key in (WRAP, WSL, SLOW):
@@ -85,6 +95,17 @@ def _use_set(prog, rep):
                     reads = True
                 elif key == WRAP and a[0] == "call" and a[1] in ("Vec::new", "Vec::with_capacity") and False:
                     reads = True
+                if reads and cal.name in ("Deref::deref", "Vec::as_slice"):
+                    # the vector viewed as a slice: fine if that slice is only measured (is_empty / len)
+                    dest = t["dest"]["l"]
+                    users = [body.callee(b2).name for b2, t2, _c2 in body.calls()
+                             if any(_mentions_local(x, dest) for x in t2.get("args", []))]
+                    n += 1
+                    r.check(all(u in ("[]::is_empty", "[]::len") for u in users), "read:slice-view",
+                            "the output vector viewed as a slice is only inspected through is_empty()/len()", str(users),
+                            "the output vector is read through a slice view by %s: later paragraphs would depend on the text of "
+                            "earlier ones" % users, site=t["span"])
+                    continue
                 if reads:
                     n += 1
                     r.check(cal.name in ("Vec::is_empty", "Vec::len"), "read:%s" % cal.name,
